@@ -97,7 +97,7 @@ def hostile_stage(work, res, tier, replay=None):
     def panic_campaign(case, c, msg):
         rec = {"ev": "WireCase", "case": case, "frames": 1, "wireLen": 0, "sealed": True, "canary": False, "sentDigest": "",
                "acted": False, "delivered": "", "reply": "none", "nodeOps": 0, "mutated": True, "note": "process died",
-               "panic": msg, "injected": 0, "actedMut": 0, "actedVersion": 0, "changedMut": 0}
+               "panic": msg, "injected": 0, "actedMut": 0, "actedVersion": 0, "changedMut": 0, "replyFrames": 0, "replySealed": True}
         rec.update(c)
         return rec
     ncl = sum(1 for _ in open(classes))
